@@ -727,6 +727,8 @@ func (e *Engine) assumeWF(reach Term, v Val) {
 // ---------------------------------------------------------------- type tags
 
 func (p *Program) typeTag(t types.Type) int {
+	p.tagMu.Lock()
+	defer p.tagMu.Unlock()
 	k := typeID(t)
 	if n, ok := p.tags[k]; ok {
 		return n
